@@ -48,7 +48,10 @@ Definition key_size_limit : nat := 1024.
 Definition ensure_bucket (c : config) (s : state) (b : list N) : state * option err :=
   match get_bucket s b with
   | Some _ => (s, None)
-  | None => if cfg_auto_bucket c then (fst (Mem.create_bucket s b), None) else (s, Some ENoSuchBucket)
+  | None => if cfg_auto_bucket c then
+              (* the name rule of create-bucket applies to a bucket made on first use as well *)
+              (if validate b then (fst (Mem.create_bucket s b), None) else (s, Some EInvalidBucketName))
+            else (s, Some ENoSuchBucket)
   end.
 
 Definition step (c : config) (s : state) (o : op) : state * resp :=
